@@ -668,6 +668,8 @@ def analyse_wrapper(name, ptoks, body, handlers, has_try, file, line):
                           ) or (len(ini) == 6 and ini[:3] == ["std", "::", "size_t"] and ini[4] == "=" and ini[5] == "0")
                 if ok:
                     iv = ini[-3]
+                    if len(cnd) == 5 and cnd[2] == "(" and cnd[4] == ")":
+                        cnd = cnd[:2] + [cnd[3]]
                     ok = len(cnd) == 3 and cnd[0] == iv and cnd[1] == "<" and cnd[2] in pidx and params[pidx[cnd[2]]].depth == 0 \
                         and stp in (["++", iv], [iv, "++"])
                 if not ok:
